@@ -56,3 +56,30 @@ def _fn_globals(fn):
 
 
 _fu.fn_globals = _fn_globals
+
+
+# --- opt-in: opaque rendering of symbolic ints by format()/f-strings.
+# CrossHair realises a symbolic int as soon as it is formatted, which turns every error-message
+# f-string (f"invalid: {event.created_at} is too old") into an unguided enumeration that can never
+# be "Confirmed".  An obligation whose formatted ints only flow into log/exception *messages* (never
+# into a value that is compared, parsed or executed) may set VK_OPAQUE_INT_FORMAT=1 (through
+# vk.ob.opaque_int_format()); format(symbolic_int, "") then yields the constant text "<int>".
+# Obligations that set it say so in their bounds.
+import os as _os
+import crosshair.core as _core
+from crosshair.libimpl import builtinslib as _bl
+
+_orig_format = _core._PATCH_REGISTRATIONS.get(format, _bl._format)
+
+
+def _format_opaque(obj, format_spec=""):
+    if _os.environ.get("VK_OPAQUE_INT_FORMAT") == "1":
+        from crosshair.tracers import NoTracing
+        with NoTracing():
+            opaque = isinstance(obj, _bl.SymbolicIntable) and format_spec == ""
+        if opaque:
+            return "<int>"
+    return _orig_format(obj, format_spec)
+
+
+_core._PATCH_REGISTRATIONS[format] = _format_opaque
